@@ -17,7 +17,7 @@ import numpy as np
 
 from ..lib.core import flist, fmts, frac
 from ..lib.impl import Raised, call
-from . import c20
+from . import c02, c20
 
 LEVEL = "proof"
 CLAIM = dict(
@@ -27,9 +27,12 @@ CLAIM = dict(
     "ceil(N/n) in exact arithmetic; n*pv >= N), ov_le_pv, rel_roi_is_interior, interiors_partition (interiors concatenate to 0..N-1 for "
     "every pv with n*pv >= N), assemble_id (assemble() is the identity grid), patch_is_subimage, centres_voxel_physical_agree (the "
     "hard-coded centre layout is the base coordinate system; voxel centre = floor), corners_centres_agree_of_dvd, and the negative "
-    "witness corners_voxel_physical_disagree_witness (n does not divide N; known finding). Tie: differential correspondence of every "
+    "witness corners_voxel_physical_disagree_witness (n does not divide N; known finding). Round 2: patch_metadata (patch (i,j) as an IMAGE = the C02 sub-image theorem at rois[i][j]: "
+    "shape, coordinates of every voxel position, voxel size, time/payload flags, and the pixel array entry by entry, scalar and vector payload), patches_refuse_3d_and_series, "
+    "interiors_cover_once (counting form: every pixel in exactly one interior), blend_and_assemble_unusable (negative: the method raises on every call; known finding) with the "
+    "specification blend_spec_partial (partition-of-unity weights reproduce the image; interior indicators are such weights) - the blending weights of the code are NOT modelled because the code cannot run. Tie: differential correspondence of every "
     "public table of Patches with the model (exact on dyadic geometries) + oracle on the implementation.",
-    note="blend_and_assemble (weighted overlap) is not covered; 3-D and space-time patches raise NotImplementedError in the code; "
+    note="blend_and_assemble raises AttributeError on every call (known finding; only a specification is proved); 3-D and space-time patches raise NotImplementedError in the code (modelled, error class tied); "
     "on general (non-dyadic) geometries the overlap in voxels is read from the implementation and only checked to be one of the two "
     "admissible roundings of the exact value.",
     technique="Lean 4 proof (list/index-grid model, induction over patches) + differential correspondence + oracle search",
@@ -269,6 +272,62 @@ def correspondence_lines(ctx, d, cfg, tables, info, lines, impl):
     impl.append(repr(a) if isinstance(a, Raised) else grid_str(decode(cfg, a.img)))
 
 
+KNOWN_BLEND = "C19:blend_and_assemble:raises:!Other"
+
+
+def blend_check(d, cfg, img, p):
+    """blend_and_assemble: with zero overlap it equals assemble(); blending the unmodified patches reproduces the image."""
+    b = call(p.blend_and_assemble)
+    if isinstance(b, Raised):
+        return [(f"C19:blend_and_assemble:raises:{b!r}", f"Patches({cfg['N']}, {cfg['n']}, rel_overlap={cfg['rel']}).blend_and_assemble() raises {b.exc!r}", {})]
+    ref = np.asarray(img.img, dtype=float)
+    got = np.asarray(b.img, dtype=float)
+    if got.shape != ref.shape or not np.allclose(got, ref, rtol=1e-12, atol=1e-9 * max(1.0, float(np.abs(ref).max()))):
+        return [("C19:blend_and_assemble!=base", "blending the unmodified patches does not reproduce the image", {})]
+    return []
+
+
+def image_patch_cases(ctx, d, lines, impl):
+    """Patches as IMAGES against DarsiaModel.PatchesImg: per-patch metadata and the whole pixel array, scalar and vector
+    payload; refusal of space-time and 3-D images; blend_and_assemble as it stands."""
+    rng = ctx.rng
+    for k in range(ctx.pick(40, 300)):
+        kind = ("scalar", "vector", "series", "3d")[k % 4 if k % 8 < 6 else k % 2]
+        dim = 3 if kind == "3d" else 2
+        r = c02.gen_root(rng, 0, dim=dim, series=(kind == "series"), vector=(kind == "vector"), tkind="none",
+                         shape=tuple(rng.randint(1, 6 if dim == 2 else 3) for _ in range(dim)))
+        img = c02.build_root(d, r)
+        if isinstance(img, Raised):
+            continue
+        origin = [float(x) for x in np.asarray(img.origin)]
+        N = r["shape"]
+        n = [rng.randint(1, 4) for _ in range(2)]
+        rel = rng.choice([0, 0.125, 0.25, 0.5])
+        p = call(d.Patches, img, n, rel_overlap=rel)
+        C = 2 if r["vector"] else 1
+        root = c02.root_tokens(r, origin)
+        ctx.count(("image-patch", kind, json.dumps(r), n, rel))
+        if kind in ("series", "3d"):
+            lines.append(f"apatch {C} {root} {N[0]} {n[0]} 1 0 {N[1]} {n[1]} 1 0 0 0")
+            impl.append(repr(p) if isinstance(p, Raised) else "built")
+            if not isinstance(p, Raised):
+                pass  # a future extension; the model then has to follow
+            continue
+        if isinstance(p, Raised):
+            ctx.fail(f"C19:Patches(...):raises:{p!r}", f"Patches on a 2-D {kind} image raises {p!r}", {"root": r, "n": n, "rel": rel})
+            continue
+        pv, ov = [int(x) for x in p.pv], [int(x) for x in p.ov]
+        A = f"{N[0]} {n[0]} {pv[0]} {ov[0]} {N[1]} {n[1]} {pv[1]} {ov[1]}"
+        for (i, j) in {(0, 0), (n[0] - 1, n[1] - 1), (rng.randrange(n[0]), rng.randrange(n[1]))}:
+            P = p(i, j)
+            lines.append(f"apatch {C} {root} {A} {i} {j}")
+            dim_ = 2
+            impl.append(" ".join(str(int(x)) for x in P.img.shape[:dim_]) + " | " + fmts(P.dimensions) + " | " + fmts(np.asarray(P.origin)) + " | " + c02.arr_str(P))
+        lines.append(f"blend {A}")
+        b = call(p.blend_and_assemble)
+        impl.append(repr(b) if isinstance(b, Raised) else "grid")
+
+
 def configs(ctx):
     rng = ctx.rng
     rels_dy, rels_gen = [0, 0.125, 0.25, 0.5], [0, 0.1, 0.25, 0.5]
@@ -330,12 +389,16 @@ def run(ctx):
             dist["empty-patches"] += any((cfg["n"][a] - 1) * info["pv"][a] >= cfg["N"][a] for a in range(2))
         for sig, what, det in fails:
             ctx.fail(sig, what, {"config": cfg, "signature": sig, **det})
+        if tables is not None and k % (4 * stride) == 0:
+            for sig, what, det in blend_check(d, cfg, tables["img"], tables["p"]):
+                ctx.fail(sig, what, {"config": cfg, "signature": sig, "clause": "blend", **det})
         if tables is not None:
             r = call(correspondence_lines, ctx, d, cfg, tables, info, lines, impl)
             if isinstance(r, Raised):
                 ctx.mark("CORR-BROKEN", {"correspondence": "patches", "config": cfg, "error": repr(r.exc)})
                 del lines[len(impl):]
                 del impl[len(lines):]
+    image_patch_cases(ctx, d, lines, impl)
     ctx.correspond("patches", lines, impl, driver="C19")
     ctx.sample({"config": cfgs[0]})
     ctx.cov["configurations"] = len(cfgs)
@@ -351,7 +414,9 @@ def replay(data):
 
     case = data.get("replay", data)
     cfg = case["config"]
-    fails, _, info = evaluate(d, cfg)
+    fails, tabs, info = evaluate(d, cfg, want_tables=True)
+    if case.get("clause") == "blend" and tabs is not None:
+        fails = fails + blend_check(d, cfg, tabs["img"], tabs["p"])
     print(f"C19 replay config={cfg} -> pv/ov={info}")
     want = case.get("signature", data.get("signature"))
     hit = [f for f in fails if f[0] == want] or fails
